@@ -89,7 +89,7 @@ def r20_1(ctx):
     shape = [(call_tail(n), "readlines" if (n.args and isinstance(n.args[0], ast.Call) and call_tail(n.args[0]) == "readlines") else U(n.args[0]) if n.args else "") for n in wcalls]
     one_out = len({U(n.func.value) for n in wcalls}) == 1
     opens = [U(n.args[0]) for n in sorted((n for n in ast.walk(fi.node) if isinstance(n, ast.Call) and call_name(n) == "open"), key=lambda n: (n.lineno, n.col_offset))]
-    ctx.check("combined file = patched macros + newline + shortcode", shape == [("writelines", "readlines"), ("write", "'\\n'"), ("writelines", "readlines")] and one_out and opens[1:] == ["Conf.get_path(InputFile.HEXAGON_PP_MACROS_PATCHED_H)", "self.shortcode_path"],
+    ctx.check("combined file = patched macros + newline + shortcode", shape == [("writelines", "readlines"), ("write", "'\\n'"), ("writelines", "readlines")] and one_out and opens[1:2] == ["Conf.get_path(InputFile.HEXAGON_PP_MACROS_PATCHED_H)"] and len(opens) == 3 and opens[2] in {f"self.{a}" for a in cfg},
               "macros, '\\n', shortcode written to the combined file", f"{shape} opens={opens}", fn_where(idx, fi))
     fi = f("remove_onetime_do_whiles")
     ctx.check("do-while stripper rewrites the resolved file in place", getpaths(fi.node) == ["HEXAGON_PP_SHORTCODE_RESOLVED_H"] and [U(n.args[1]) for n in ast.walk(fi.node) if isinstance(n, ast.Call) and call_name(n) == "open" and len(n.args) > 1] == ["'w'"],
